@@ -62,6 +62,7 @@ func (r *Reader) GetLog(idx uint64) (*types.PooledBuffer, error) {
 func (r *Reader) readFrame(offset uint32) (frameHeader, *types.PooledBuffer, error) {
 	buf := r.makeBuffer()
 
+	vhook("readFrame.beforeRead", offset)
 	n, err := r.rf.ReadAt(buf.Bs, int64(offset))
 	if errors.Is(err, io.EOF) && n >= frameHeaderLen {
 		// We might have hit EOF just because our read buffer (at least 64KiB) might
